@@ -130,7 +130,7 @@ impl Run {
             "wall_s": wall,
             "violations": unlisted,
         });
-        let dir = PathBuf::from(VERIF_ROOT).join("evidence");
+        let dir = out_root().join("evidence");
         let _ = std::fs::create_dir_all(&dir);
         let path = dir.join(format!("{}.json", self.property));
         std::fs::write(&path, serde_json::to_string_pretty(&ev).unwrap() + "\n")
@@ -156,6 +156,14 @@ impl Run {
     }
 }
 
+/// Where evidence/ and replays/ are written: /verif, unless VERIF_OUT_ROOT redirects it
+/// (used only by tools/try_mutant.sh so that mutant runs do not overwrite real evidence).
+fn out_root() -> PathBuf {
+    std::env::var("VERIF_OUT_ROOT")
+        .map(PathBuf::from)
+        .unwrap_or_else(|_| PathBuf::from(VERIF_ROOT))
+}
+
 fn fnv(s: &str) -> u64 {
     let mut h: u64 = 0xcbf29ce484222325;
     for b in s.bytes() {
@@ -166,7 +174,7 @@ fn fnv(s: &str) -> u64 {
 }
 
 fn write_replay(property: &str, v: &Violation) -> PathBuf {
-    let dir = PathBuf::from(VERIF_ROOT).join("replays").join(property);
+    let dir = out_root().join("replays").join(property);
     let _ = std::fs::create_dir_all(&dir);
     let path = dir.join(format!("{:016x}.json", fnv(&v.signature)));
     let doc = json!({
